@@ -31,6 +31,10 @@ type XferCfg struct {
 	ScanPaths bool   `json:"scanpaths"` // production mode: ScanPaths + path resolver, root "."
 	HashAlg   string `json:"hashalg,omitempty"`
 	RecvStreams int  `json:"recv_streams,omitempty"`
+	// SrcList (ScanPaths mode only): the hosted selection, in command-line
+	// order, instead of the single srcRoot (several paths, possibly with equal
+	// base names). The caller computes the expected digest itself.
+	SrcList []string `json:"-"`
 
 	WatchdogMs int `json:"watchdog_ms,omitempty"` // default 20000
 
@@ -143,11 +147,15 @@ func (r XferResult) Summary() map[string]any {
 // sender root path, the resolver and the expected path prefix in outDir.
 func BuildManifest(cfg XferCfg, srcRoot string) (manifest.Manifest, string, func(string) string, string, error) {
 	if cfg.ScanPaths {
-		m, err := manifest.ScanPaths([]string{srcRoot})
+		paths := []string{srcRoot}
+		if len(cfg.SrcList) > 0 {
+			paths = cfg.SrcList
+		}
+		m, err := manifest.ScanPaths(paths)
 		if err != nil {
 			return m, "", nil, "", err
 		}
-		res, err := app.VerifBuildPathResolver([]string{srcRoot})
+		res, err := app.VerifBuildPathResolver(paths)
 		if err != nil {
 			return m, "", nil, "", err
 		}
